@@ -8,6 +8,7 @@ import (
 	"bytes"
 	"encoding/hex"
 	"fmt"
+	"io"
 	"math/big"
 	"strings"
 	"testing"
@@ -94,9 +95,10 @@ func c03Point(t *rapid.T, ev *evProp, gi *GroupInfo) {
 	trailer := rapid.SliceOfN(rapid.Byte(), 0, 9).Draw(t, "trailer")
 	rd := bytes.NewReader(append(append([]byte(nil), enc...), trailer...))
 	R := usedRecv("Rrecv")
-	n, err = R.UnmarshalFrom(rd)
+	rmode := rapid.SampledFrom(readerModes).Draw(t, "reader")
+	n, err = R.UnmarshalFrom(&shortReader{r: rd, mode: rmode, max: 1 + rapid.IntRange(0, len(enc)).Draw(t, "chunk")})
 	if err != nil || n != len(enc) || rd.Len() != len(trailer) || !R.Equal(P.P) {
-		c03Fail(t, ev, gi, "UnmarshalFrom", "UnmarshalFrom: n=%d err=%v unread=%d (trailer %d) equal=%v\n%s", n, err, rd.Len(), len(trailer), err == nil && R.Equal(P.P), ctx)
+		c03Fail(t, ev, gi, "UnmarshalFrom", "UnmarshalFrom (reader delivering %s): n=%d err=%v unread=%d (trailer %d) equal=%v\n%s", rmode, n, err, rd.Len(), len(trailer), err == nil && R.Equal(P.P), ctx)
 	}
 	// 5. hex helpers
 	hs, err := kenc.PointToStringHex(g, P.P)
@@ -238,9 +240,10 @@ func c03Scalar(t *rapid.T, ev *evProp, gi *GroupInfo) {
 	trailer := rapid.SliceOfN(rapid.Byte(), 0, 9).Draw(t, "trailer")
 	rd := bytes.NewReader(append(append([]byte(nil), enc...), trailer...))
 	v := usedRecv("vrecv")
-	n, err = v.UnmarshalFrom(rd)
+	rmode := rapid.SampledFrom(readerModes).Draw(t, "reader")
+	n, err = v.UnmarshalFrom(&shortReader{r: rd, mode: rmode, max: 1 + rapid.IntRange(0, len(enc)).Draw(t, "chunk")})
 	if err != nil || n != len(enc) || rd.Len() != len(trailer) || !v.Equal(s.S) {
-		c03Fail(t, ev, gi, "scalar.UnmarshalFrom", "n=%d err=%v unread=%d (trailer %d)\n%s", n, err, rd.Len(), len(trailer), ctx)
+		c03Fail(t, ev, gi, "scalar.UnmarshalFrom", "reader delivering %s: n=%d err=%v unread=%d (trailer %d)\n%s", rmode, n, err, rd.Len(), len(trailer), ctx)
 	}
 	hs, err := kenc.ScalarToStringHex(g, s.S)
 	if err != nil || hs != hex.EncodeToString(enc) {
@@ -297,7 +300,7 @@ func c03Scalar(t *rapid.T, ev *evProp, gi *GroupInfo) {
 }
 
 const c03Rule = "three generated families per group: (points) a point from {O,B,-B,k*B,a*B,Pick,Embed,Hash,decoded,sums/differences/doubles/multiples with non-normalised internals,pairing outputs} is checked for " +
-	"fixed length, round trip, byte-identical re-encoding, MarshalTo/UnmarshalFrom with a random trailer, the four hex helpers, and value preservation against a twin created through bytes beforehand (incl. continued arithmetic); " +
+	"fixed length, round trip, byte-identical re-encoding, MarshalTo/UnmarshalFrom with a random trailer through readers that deliver whole requests / one byte / half / generated chunks / data together with EOF, the four hex helpers, and value preservation against a twin created through bytes beforehand (incl. continued arithmetic); " +
 	"(pairs) two points equal by construction along different API paths, or different by construction, must satisfy Equal <=> identical encodings; (scalars) reduced scalars from edge classes: canonical fixed-length encoding equal to the math/big rendering, round trip, stream and hex helpers, Equal <=> bytes. " +
 	"non-trivial = identity/edge operand, non-normalised internals, an encoding with a leading zero byte, or any pair case; distinct = distinct rendered case" +
 	" Added after the sensitivity rounds: decoding into fresh / used / arithmetic-result receivers; the caller overwrites returned encodings and decoded input buffers and updates values in place (an encoding is a snapshot)."
@@ -331,4 +334,35 @@ func TestC03_Encodings(t *testing.T) {
 			})
 		})
 	}
+}
+
+// shortReader: an io.Reader that is allowed to deliver less than asked for (a network connection, a
+// pipe, a bufio.Reader at a buffer boundary): whole requests, one byte at a time, at most half of the
+// request, chunks of a generated maximum size, or the last bytes together with io.EOF.
+var readerModes = []string{"whole", "whole", "one-byte", "half", "chunks", "data+EOF"}
+
+type shortReader struct {
+	r    *bytes.Reader
+	mode string
+	max  int
+}
+
+func (s *shortReader) Read(p []byte) (int, error) {
+	if len(p) == 0 {
+		return 0, nil
+	}
+	lim := len(p)
+	switch s.mode {
+	case "one-byte":
+		lim = 1
+	case "half":
+		lim = max(1, len(p)/2)
+	case "chunks":
+		lim = min(len(p), s.max)
+	}
+	n, err := s.r.Read(p[:lim])
+	if s.mode == "data+EOF" && err == nil && s.r.Len() == 0 {
+		err = io.EOF
+	}
+	return n, err
 }
